@@ -57,12 +57,12 @@ CLAIMED = {
   technique="TLA+ spec (Views.tla) model-checked with TLC + TLC-simulated behaviours replayed through the real API on all source kinds + trace validation (ViewsTrace.tla)",
   design="5 C13"),
  "C04": dict(
-  text="Integrity.tla: a container is a set of blocks (verified by CRC or not, inside a pack's hashed range or not, with or without exempt bytes); TLC enumerates every single and double damage (1 627 damage states) and every truncation point of a representative one-file container and checks PristineVerifies, CoveredDamageDetected, ExemptIsExempt from what check() verifies. For real containers (packagings x compressions) every byte position x masks {01,80,ff} and sampled multi-byte alterations are applied to a copy, the copy is opened and every check run (Container::check, each pack's own check); IntegrityTrace.tla (Prop=C04) accepts a case only if damage on bytes a checksum covers (classified by the independent decoder's block map; the location bytes 38..256 of pack infos and their CRC are the declared exemption) makes that pack's check and the container check not 'true'; the pristine file must verify. An extra stage replays seeded end-to-end histories (packaging, concat, prefix, removals, relocations, damage) against the root module Jubako.tla, whose CheckIsSound says that a container whose check is true reads back as its logical content.",
+  text="Integrity.tla: a container is a set of blocks (verified by CRC or not, inside a pack's hashed range or not, with or without exempt bytes); TLC enumerates every single and double damage (1 627 damage states) and every truncation point of a representative one-file container and checks PristineVerifies, CoveredDamageDetected, ExemptIsExempt from what check() verifies. For real containers (packagings x compressions) every byte position x masks {01,80,ff} and sampled multi-byte alterations are applied to a copy, the copy is opened and every check run (Container::check, each pack's own check); IntegrityTrace.tla (Prop=C04) accepts a case only if damage on bytes a checksum covers (classified by the independent decoder's block map; the location bytes 38..256 of pack infos and their CRC are the declared exemption) makes that pack's check and the container check not 'true'; the pristine file must verify; worlds with an unavailable pack and with two content packs sharing one pack id (alternatives) are swept too. An extra stage replays seeded end-to-end histories (packaging, concat, prefix, removals, relocations, damage) against the root module Jubako.tla, whose CheckIsSound says that a container whose check is true reads back as its logical content.",
   note="Trusted: TLC, tools/jbkdec.py for the block map and the coverage classification. Quick: one mask per position; thorough: all three, all packagings x compressions.",
   technique="TLA+ spec (Integrity.tla) model-checked with TLC + exhaustive single-byte fault enumeration on real containers + trace validation (IntegrityTrace.tla)",
   design="5 C04"),
  "C05": dict(
-  text="Same specification and enumeration as C04 over the whole file; each damaged copy is fully dumped (pack count, indexes, counts, every property of every entry, content addresses, content sizes, content bytes, checks) and compared item by item with the pristine dump. IntegrityTrace.tla (Prop=C05) accepts a case only if no structural item differs (identical or error) and content bytes differ only when the container check is not 'true' (StructureNeverSilentlyWrong of Integrity.tla, which derives it from the blocks every operation CRC-verifies before parsing).",
+  text="Same specification and enumeration as C04 over the whole file; each damaged copy is fully dumped (pack count, indexes, counts, every property of every entry - through the generic builder and, independently, through the typed property builders -, content addresses, content sizes, content bytes, checks) and compared item by item with the pristine dump. IntegrityTrace.tla (Prop=C05) accepts a case only if no structural item differs (identical or error) and content bytes differ only when the container check is not 'true' (StructureNeverSilentlyWrong of Integrity.tla, which derives it from the blocks every operation CRC-verifies before parsing).",
   note="Crashes are judged by C06, not here. Trusted as C04.",
   technique="TLA+ spec (Integrity.tla) model-checked with TLC + exhaustive single-byte fault enumeration with full logical dump comparison + trace validation (IntegrityTrace.tla)",
   design="5 C05"),
@@ -77,7 +77,7 @@ CLAIMED = {
   technique="TLA+ spec (AtomicCreate.tla) model-checked with TLC + strace-recorded file-system protocol and exhaustive crash / I/O-error injection on the real creator + trace validation (AtomicCreateTrace.tla)",
   design="5 C09"),
  "C07": dict(
-  text="Decoder.tla models the length-publication protocol with an explicit condition variable (readers evaluate their predicate, block, are woken and re-evaluate), chunk writes and publications as separate steps, and a decoder that may fail at any chunk boundary. TLC checks, for 3 readers x 3 chunks (more requests and chunks in thorough), LengthsOrdered, ReadsBelowWritten and, under weak fairness, Served (every request ends with a slice or - after a decoder failure - an error); the variants notify_one, length stored without the mutex, publish-before-write and failure-not-reported are each violated. The hooked build (--cfg jubako_verif) runs N in {2,8,16,32} reader threads over one opened pack with 45 compressed clusters (> 40 cache slots) and up to 44 clusters of > 500 chunks decoding at once (> 8 pool threads), same and different contents, whole and partial ranges through get_slice / stream / read_exact; the hooks fire while the buffer's mutex is held and double as seeded schedule points. DecoderTrace.tla accepts a run only if every Write / Publish / WaitDone / Slice obeys the protocol invariants per buffer, the cache never exceeds its capacity, every read returned exactly the stored bytes and every thread terminated. ClusterCache.tla (with Lru.tla) models the cluster cache and the counted references readers hold: whatever is evicted meanwhile a reader reads the cluster it asked for from an object that still exists (ReadsOwnCluster; the variant where the cache owns the objects violates it), and the CacheGet hook (fired inside the cache mutex) is compared with the LRU model. One stress run in three is a stampede: all threads make the same reads, released together by a barrier before each, on a pack opened again four times (simultaneous first accesses to a cluster nobody has read).",
+  text="Decoder.tla models the length-publication protocol with an explicit condition variable (readers evaluate their predicate, block, are woken and re-evaluate), chunk writes and publications as separate steps, and a decoder that may fail at any chunk boundary. TLC checks, for 3 readers x 3 chunks (more requests and chunks in thorough), LengthsOrdered, ReadsBelowWritten and, under weak fairness, Served (every request ends with a slice or - after a decoder failure - an error); the variants notify_one, length stored without the mutex, publish-before-write and failure-not-reported are each violated. The hooked build (--cfg jubako_verif) runs N in {2,8,16,32} reader threads over one opened pack with 45 compressed clusters (> 40 cache slots) and up to 44 clusters of > 500 chunks decoding at once (> 8 pool threads), same and different contents, whole and partial ranges through get_slice / stream / read_exact; the hooks fire while the buffer's mutex is held and double as seeded schedule points. DecoderTrace.tla accepts a run only if every Write / Publish / WaitDone / Slice obeys the protocol invariants per buffer, the cache never exceeds its capacity, every read returned exactly the stored bytes and every thread terminated. ClusterCache.tla (with Lru.tla) models the cluster cache and the counted references readers hold: whatever is evicted meanwhile a reader reads the cluster it asked for from an object that still exists (ReadsOwnCluster; the variant where the cache owns the objects violates it), and the CacheGet hook (fired inside the cache mutex) is compared with the LRU model. Pack D (48 / 120 zstd clusters of 2 MiB) is read while one thread asks for every content and drops it at once, so that clusters are evicted and released while the pool still decodes them. One stress run in three is a stampede: all threads make the same reads, released together by a barrier before each, on a pack opened again four times (simultaneous first accesses to a cluster nobody has read).",
   note="Real schedules are sampled (200 seeds quick, 5000 thorough), the protocol is exhaustive in the model. 'No memory error' is covered only through the protocol invariant (readers below published, writer above, no reallocation); no sanitizer is part of this technique.",
   technique="TLA+ spec (Decoder.tla, safety + liveness with explicit condvar) model-checked with TLC + guarded hooks at linearization points + trace validation (DecoderTrace.tla) of seeded concurrent runs",
   design="5 C07"),
